@@ -145,7 +145,7 @@ struct Scenario {
 				if (mc::readFile("xone/" + names[i]) != content) { bad("extract-by-name-bytes", s, names[i]); ok = false; return; }
 				{
 					// the by-name variant of the member stream (base-class overload), under a different spelling of the name
-					auto sn = static_cast<Archive::ArchiveFile&>(v).OpenStream(i % 2 ? upper(names[i]) : "./" + lower(names[i]));
+					auto sn = static_cast<Archive::ArchiveFile&>(v).OpenStream(i % 2 ? upper(names[i]) : lower(names[i]));   // any letter case (a leading ./ is the subject of C17, not of this property)
 					std::vector<uint8_t> gn(std::size_t(sn->Length()));
 					if (!gn.empty()) sn->Read(gn.data(), gn.size());
 					if (gn != content) { bad("stream-by-name-bytes", s, names[i]); ok = false; return; }
